@@ -1965,6 +1965,7 @@ int EGLPNUM_TYPENAME_ILLlib_chgsense (
 			EGLPNUM_TYPENAME_EGlpNumZero(qslp->lower[j]);
 			EGLPNUM_TYPENAME_EGlpNumZero(qslp->upper[j]);
 			EGLPNUM_TYPENAME_EGlpNumOne(A->matval[k]);
+			EGLPNUM_TYPENAME_EGlpNumSign(A->matval[k]);
 			break;
 		case 'E':									/* Artificial */
 			qslp->sense[rowlist[i]] = 'E';
@@ -1990,6 +1991,8 @@ int EGLPNUM_TYPENAME_ILLlib_chgsense (
 			rval = 1;
 			ILL_CLEANUP;
 		}
+		if (qslp->rangeval)
+			EGLPNUM_TYPENAME_EGlpNumZero (qslp->rangeval[rowlist[i]]);
 	}
 
 CLEANUP:
@@ -3312,6 +3315,7 @@ int EGLPNUM_TYPENAME_ILLlib_chgrange (
 	}
 	
 	EGLPNUM_TYPENAME_EGlpNumCopy(qslp->rangeval[indx], coef);
+	EGLPNUM_TYPENAME_EGlpNumCopy(qslp->upper[qslp->rowmap[indx]], coef);
 
 CLEANUP:
 
